@@ -1787,10 +1787,13 @@ static int parse_loop_packets(struct scanner_s *scanner, cif_loop_tp *loop, stri
                                     goto packets_end;
                                 }
                                 /* recover by synthesizing unknown values to fill the packet, and saving it */
+                                /*
+                                 * (every column has a value object: a duplicate name's column shares a dummy one.  The
+                                 * names array cannot be consulted here: it is compacted, so it is shorter than the
+                                 * column list whenever a duplicate name was dropped.)
+                                 */
                                 for (; column_index < column_count; column_index += 1) {
-                                    if ((names[column_index] != NULL)
-                                            && (result = cif_value_init(packet_values[column_index], CIF_UNK_KIND))
-                                                    != CIF_OK) {
+                                    if ((result = cif_value_init(packet_values[column_index], CIF_UNK_KIND)) != CIF_OK) {
                                         goto packets_end;
                                     }
                                 }
